@@ -82,25 +82,34 @@ theorem dump_eq_newest (r : Ring α) (h : r.WF) : (r.align 0).data.reverse = r.n
 
 theorem fresh_n (n : Nat) (z : α) : (fresh n z).n = n := rfl
 
-theorem resize_fresh_zero (n n' : Nat) (z : α) (hn' : 0 < n') :
-    (fresh n z).reconstrain0 n' z = fresh n' z := by
-  unfold Ring.reconstrain0 Ring.align fresh resizeTail roll
-  simp
-  split
-  · simp; omega
-  · split
-    · congr 1; omega
-    · congr 1; omega
+/-- the ring the first observation after construction / a clear is pushed into is "all fill" -/
+theorem initRing_eq (n : Nat) (z : α) (d : Option (Ring α))
+    (h : d = none ∨ ∃ r, d = some r ∧ r.WF ∧ r.n = n) :
+    firstStorage d n z = fresh n z := by
+  rcases h with h | ⟨r, h, hw, hn⟩ <;> subst h
+  · rfl
+  · simp only [firstStorage]; rw [resetFill_eq_fresh r hw, hn]
 
-theorem initRing_eq (n : Nat) (z : α) (d : Option (Ring α)) (h : d = none ∨ d = some (fresh n z)) :
-    storageOr d (fresh n z) = fresh n z := by
-  rcases h with h | h <;> subst h <;> rfl
+/-- the temporal setters keep kept-shape storage a well-formed ring of the new size -/
+theorem resizeData_inv (K : Kind α ω) (dt dur : α) (incl : Bool)
+    (n : Nat) (ini : Bool) (data : Option (Ring α)) (p : Params α) (n' : Nat) (hn' : 0 < n')
+    (hd : data = none ∨ ∃ r, data = some r ∧ r.WF ∧ r.n = n) :
+    resizeData K ⟨dt, dur, incl, n, ini, data, p⟩ n' = none ∨
+      ∃ r, resizeData K ⟨dt, dur, incl, n, ini, data, p⟩ n' = some r ∧ r.WF ∧ r.n = n' := by
+  rcases hd with h | ⟨r, h, hw, hrn⟩ <;> subst h
+  · left; rfl
+  · right
+    simp only [resizeData, Option.map_some]
+    split
+    · rename_i h; exact ⟨r, rfl, hw, by rw [hrn, h]⟩
+    · exact ⟨_, rfl, reconstrain0_wf _ _ hn' _, rfl⟩
 
 /-- One step of the code-shaped machine refines one step of the specification machine, and
-preserves the invariant.  Side condition: a temporal setter pads a grown record with ZEROS, so on
-a cleared-but-kept record it re-creates "all fill" only when `fill = 0`. -/
+preserves the invariant — for EVERY operation, including the temporal setters (since the D34
+repair the first observation after a clear refills kept storage, so a resize in between is
+invisible). -/
 theorem step_refines (K : Kind α ω) (hsz : ∀ a b c, 0 < K.recsz a b c) (s : State α) (hi : Inv K s)
-    (op : Op α ω) (hop : K.fill = K.zero ∨ op.isResize = false) :
+    (op : Op α ω) :
     sabs (step K s op).1 = (sstep K (sabs s) op).1 ∧
     (step K s op).2 = (sstep K (sabs s) op).2 ∧
     Inv K (step K s op).1 := by
@@ -125,36 +134,21 @@ theorem step_refines (K : Kind α ω) (hsz : ∀ a b c, 0 < K.recsz a b c) (s : 
       simp only [step, if_true]
       cases keep
       · left; rfl
-      · rcases hd with h | h <;> subst h
+      · rcases hd with h | ⟨r, h, hwr, hrn⟩ <;> subst h
         · left; rfl
-        · right; simp [resetFill_eq_fresh _ hw, fresh_n]
+        · right
+          exact ⟨_, rfl, resetFill_wf r hwr _, by simpa [Ring.resetFill] using hrn⟩
     | peek => exact ⟨by simp [step, sstep, sabs], by simp [step, sstep, sabs], hn, by simpa [step] using hd⟩
     | dump => exact ⟨by simp [step, sstep, sabs], by simp [step, sstep, sabs], hn, by simpa [step] using hd⟩
     | view t tol tensor => exact ⟨by simp [step, sstep, sabs], by simp [step, sstep, sabs], hn, by simpa [step] using hd⟩
     | setDt v =>
       refine ⟨by simp [step, sstep, sabs], by simp [step, sstep, sabs], hsz _ _ _, ?_⟩
-      simp only [step, if_true, resizeData]
-      rcases hd with h | h <;> subst h
-      · left; rfl
-      · right
-        simp only [Option.map_some]
-        split
-        · rename_i h; rw [h]
-        · rcases hop with h | h
-          · rw [h, resize_fresh_zero _ _ _ (hsz _ _ _)]
-          · simp [Op.isResize] at h
+      simp only [step, if_true]
+      exact resizeData_inv K dt dur incl n true data p _ (hsz _ _ _) hd
     | setDur v =>
       refine ⟨by simp [step, sstep, sabs], by simp [step, sstep, sabs], hsz _ _ _, ?_⟩
-      simp only [step, if_true, resizeData]
-      rcases hd with h | h <;> subst h
-      · left; rfl
-      · right
-        simp only [Option.map_some]
-        split
-        · rename_i h; rw [h]
-        · rcases hop with h | h
-          · rw [h, resize_fresh_zero _ _ _ (hsz _ _ _)]
-          · simp [Op.isResize] at h
+      simp only [step, if_true]
+      exact resizeData_inv K dt dur incl n true data p _ (hsz _ _ _) hd
   | false =>
     simp only [Bool.false_eq_true, if_false] at hd
     obtain ⟨r, hdr, hw, hrn⟩ := hd
@@ -174,7 +168,8 @@ theorem step_refines (K : Kind α ω) (hsz : ∀ a b c, 0 < K.recsz a b c) (s : 
       simp only [step, if_true]
       cases keep
       · left; rfl
-      · right; simp [resetFill_eq_fresh _ hw]
+      · right
+        exact ⟨_, rfl, resetFill_wf r hw _, by simp [Ring.resetFill]⟩
     | peek => exact ⟨by simp [step, sstep, sabs], by simp [step, sstep, sabs, h0], keep⟩
     | dump =>
       have ha := align_wf r hw 0 hn
@@ -214,23 +209,15 @@ theorem step_refines (K : Kind α ω) (hsz : ∀ a b c, 0 < K.recsz a b c) (s : 
 
 /-- Refinement for every finite operation history (induction over the op list). -/
 theorem run_refines (K : Kind α ω) (hsz : ∀ a b c, 0 < K.recsz a b c) (ops : List (Op α ω))
-    (s : State α) (hi : Inv K s) (hop : K.fill = K.zero ∨ ∀ op ∈ ops, op.isResize = false) :
+    (s : State α) (hi : Inv K s) :
     sabs (run K s ops).1 = (srun K (sabs s) ops).1 ∧
     (run K s ops).2 = (srun K (sabs s) ops).2 ∧
     Inv K (run K s ops).1 := by
   induction ops generalizing s with
   | nil => exact ⟨rfl, rfl, hi⟩
   | cons op ops ih =>
-    have hop1 : K.fill = K.zero ∨ op.isResize = false := by
-      rcases hop with h | h
-      · exact Or.inl h
-      · exact Or.inr (h op (List.mem_cons_self ..))
-    have hop2 : K.fill = K.zero ∨ ∀ op' ∈ ops, op'.isResize = false := by
-      rcases hop with h | h
-      · exact Or.inl h
-      · exact Or.inr (fun op' hm => h op' (List.mem_cons_of_mem _ hm))
-    obtain ⟨h1, h2, h3⟩ := step_refines K hsz s hi op hop1
-    obtain ⟨i1, i2, i3⟩ := ih (step K s op).1 h3 hop2
+    obtain ⟨h1, h2, h3⟩ := step_refines K hsz s hi op
+    obtain ⟨i1, i2, i3⟩ := ih (step K s op).1 h3
     simp only [run, srun]
     rw [← h1]
     exact ⟨i1, by rw [h2, i2], i3⟩
@@ -327,7 +314,7 @@ theorem run_observes (K : Kind α ω) (hsz : ∀ a b c, 0 < K.recsz a b c) (s : 
     ∃ r, (run K s (obsOps o ip T)).1 =
         { s with initial := false, data := some r, p := preN K T s.p } ∧
       r.WF ∧ r.n = s.n ∧ r.newest = histAfter K s.dt s.p s.n o T := by
-  obtain ⟨h1, _, h3⟩ := run_refines K hsz (obsOps o ip T) s hi (Or.inr (obsOps_noResize o ip T))
+  obtain ⟨h1, _, h3⟩ := run_refines K hsz (obsOps o ip T) s hi
   have hs : (sabs s).hist = none := by simp [sabs, hc]
   rw [srun_observes K (sabs s) hs hi.1 o ip T] at h1
   generalize (run K s (obsOps o ip T)).1 = s' at h1 h3
